@@ -541,8 +541,105 @@ def _bool_eval(e, env):
     return env.get("?", True)
 
 
+def _cached_ast_ownership(ctx, model, m):
+    """the parsed module AST is memoized (lru_cache) and therefore shared by
+    every application of the decorator; ast.NodeTransformer.generic_visit
+    rewrites child lists *in place*.  A transformer may therefore only be
+    applied to a deep copy of what the cached loaders hand out, else the first
+    application changes what every later one sees (who-may-write rule)."""
+    funcs = {k.split(":", 1)[1]: f for k, (mm, f) in model.functions.items()
+             if mm is m}
+    U = lambda n: ast.unparse(n).replace(" ", "")      # noqa: E731
+    cached = {name for name, f in funcs.items()
+              if any(U(d).split("(")[0].split(".")[-1] in ("lru_cache", "cache")
+                     for d in f.decorator_list)}
+    if not cached:
+        ctx.ob("O/optimizer/cached-ast-not-mutated", True, m.loc(m.tree),
+               "the module AST is not memoized: every application parses afresh")
+        return
+    DEEP = ("deepcopy", "copy.deepcopy")
+
+    def hands_out_shared(f, seen=()):
+        """does f return (a part of) a cached value without deep-copying it?"""
+        for r in ast.walk(f):
+            if isinstance(r, ast.Return) and r.value is not None:
+                if isinstance(r.value, ast.Call) and U(r.value.func) in DEEP:
+                    continue
+                for c in ast.walk(r.value):
+                    if isinstance(c, ast.Call) and isinstance(c.func, ast.Name):
+                        if c.func.id in shared or c.func.id in cached:
+                            return True
+                    if isinstance(c, ast.Name) and c.id in tainted_locals(f):
+                        return True
+        return False
+
+    def tainted_locals(f):
+        t = set()
+        for _ in range(4):
+            for st in ast.walk(f):
+                if isinstance(st, ast.Assign):
+                    v = st.value
+                    if isinstance(v, ast.Call) and U(v.func) in DEEP:
+                        continue
+                    src_taint = any(
+                        (isinstance(c, ast.Call) and isinstance(c.func, ast.Name)
+                         and (c.func.id in shared or c.func.id in cached))
+                        or (isinstance(c, ast.Name) and c.id in t)
+                        for c in ast.walk(v))
+                    if src_taint:
+                        for tg in st.targets:
+                            for n_ in ast.walk(tg):
+                                if isinstance(n_, ast.Name):
+                                    t.add(n_.id)
+                if isinstance(st, ast.For):
+                    if any(isinstance(c, ast.Name) and c.id in t
+                           for c in ast.walk(st.iter)):
+                        for n_ in ast.walk(st.target):
+                            if isinstance(n_, ast.Name):
+                                t.add(n_.id)
+        return t
+
+    shared = set()
+    for _ in range(6):          # transitive closure over the loader helpers
+        for name, f in funcs.items():
+            if name not in cached and name not in shared and \
+                    name != "optimize_mapper" and hands_out_shared(f):
+                shared.add(name)
+    # in-place transformers of the module
+    mutators = set()
+    for c in model.classes.values():
+        if c.module is m and any("NodeTransformer" in U(b) for b in c.node.bases):
+            if any(isinstance(x, ast.Call) and U(x.func) == "self.generic_visit"
+                   for x in ast.walk(c.node)):
+                mutators.add(c.name)
+    _, opt = model.func(f"{OPT}:optimize_mapper")
+    taint = tainted_locals(opt)
+    bad = []
+    n_visits = 0
+    for c in ast.walk(opt):
+        if isinstance(c, ast.Call) and isinstance(c.func, ast.Attribute) and \
+                c.func.attr == "visit" and isinstance(c.func.value, ast.Call) and \
+                U(c.func.value.func) in mutators and c.args:
+            n_visits += 1
+            if any(isinstance(n_, ast.Name) and n_.id in taint
+                   for n_ in ast.walk(c.args[0])):
+                bad.append(U(c.func.value.func))
+    ctx.floor("optimizer: transformer applications", n_visits, 2)
+    ctx.ob("O/optimizer/cached-ast-not-mutated", not bad, m.loc(opt),
+           "in-place transformers are applied to private copies of the memoized "
+           "module AST" if not bad else
+           f"{sorted(set(bad))} (ast.NodeTransformer with generic_visit, which "
+           "rewrites child lists in place) are applied to method definitions "
+           f"taken from the memoized loaders {sorted(cached)} without a deep copy: "
+           "the first application of optimize_mapper changes the AST every later "
+           "application starts from -- after one class was optimized with "
+           "drop_args/drop_kwargs, optimizing another class *without* them still "
+           "strips the extra arguments from inherited methods")
+
+
 def _optimizer(ctx, model):
     m = model.repo.module(OPT)
+    _cached_ast_ownership(ctx, model, m)
     # (a) _VarArgsRemover
     var = model.cls(f"{OPT}:_VarArgsRemover")
     vc = var.members.get("visit_Call")
